@@ -7,6 +7,7 @@ INVARIANTS
   C15_MeterCellsExclusive
   C15_NotFreeWhileInUse
   C15_NoIdTwiceInPool
+  C15_MeterCellsStayInOwnPool
   C15_PeerIdsInUseStayAllocated
   C15_FailedWriteMeansRejection
 POSTCONDITION TraceAccepted
